@@ -147,8 +147,28 @@ func firstLine(s string) string {
 // selfTestBenign: the other direction. /verif/benign holds behaviour-preserving edits (refactors a maintainer might
 // make, and seeded changes that a later repair made harmless); the check must stay silent on every one of them.
 func selfTestBenign(id, verif, repo string, r *Report) {
-	dirs, _ := filepath.Glob(filepath.Join(verif, "benign", "*", "patch.diff"))
-	sort.Strings(dirs)
+	all, _ := filepath.Glob(filepath.Join(verif, "benign", "*", "patch.diff"))
+	sort.Strings(all)
+	// an edit whose meta.json lists the properties it is about (the author's, and those whose checks alarmed on it
+	// before they were corrected) is replayed under those only
+	var dirs []string
+	for _, d := range all {
+		var meta struct {
+			Properties []string `json:"properties"`
+		}
+		if b, err := os.ReadFile(filepath.Join(filepath.Dir(d), "meta.json")); err == nil {
+			json.Unmarshal(b, &meta)
+		}
+		keep := len(meta.Properties) == 0
+		for _, p := range meta.Properties {
+			if p == id {
+				keep = true
+			}
+		}
+		if keep {
+			dirs = append(dirs, d)
+		}
+	}
 	r.rule(id+".benign", 0, "the check raises no alarm on any behaviour-preserving edit of the benign corpus (checker validation on a scratch copy)")
 	results := make([]selfTestResult, len(dirs))
 	var wg sync.WaitGroup
